@@ -174,6 +174,12 @@ def mon_c03(m, payload):
     em, eu, cls = kind(m)
     L = int(V(sp, 'plant_lifetime'))
     nprod, ninj = float(V(wb, 'nprod')), float(V(wb, 'ninj'))
+    # well counts as the input states them (no well-bore model rewrites them): a run that overwrites a count while calculating stays
+    # self-consistent, so the live value cannot be the reference
+    for nm, live in (('Number of Production Wells', nprod), ('Number of Injection Wells', ninj)):
+        w = _f(inp, nm)
+        if w is not None and w != live:
+            fails.append((f'wells/count_altered/{nm}', f'input says {nm} = {w:g}, the run costs {live:g}'))
     Cwell, Cstim, Cplant, Cgath, Cexpl = (float(V(ec, k)) for k in ('Cwell', 'Cstim', 'Cplant', 'Cgath', 'Cexpl'))
     Cpiping, Cdh = float(V(ec, 'Cpiping')), float(V(ec, 'dhdistrictcost'))
     CCap, Coam = float(V(ec, 'CCap')), float(V(ec, 'Coam'))
